@@ -69,6 +69,11 @@ if __name__ == "__main__":
         for m in [x for x in os.environ.get("CCTV_PREIMPORT", "").split(",") if x]:
             importlib.import_module(m)
         print(verdict_digest(int(sys.argv[2]), int(sys.argv[3])))
+    elif cmd == "exotic":
+        from . import exotic
+        for lab in sys.argv[2:]:
+            # each label in a process of its own would be the purest form; a process per *group* of labels of the same call kind is used by the caller
+            print(lab + "\t" + exotic.run(lab))
     elif cmd == "fixtures":
         fixtures(sys.argv[2] if len(sys.argv) > 2 else "")
     else:
